@@ -56,9 +56,13 @@ def oracle(ctx, seeds=None):
             bad('centres', "centres are not face midpoints")
         if vol.shape != (n,) or np.any(vol <= 0) or abs(np.sum(vol) - (hi - lo)) > 1e-12 * sc or np.max(np.abs(vol - np.diff(xf))) > 1e-14 * sc:
             bad('volumes', "volumes not positive / not summing to the length (sum %r, length %r)" % (float(np.sum(vol)), hi - lo))
-        c = float(rng.normal())
+        c = float(rng.choice([rng.normal(), 0.0, -0.0, -2.5, 1e-30, 1e30]))   # (squares stay in the binary64 range)
         if abs(msh.average(np.full(n, c)) - c) > 1e-13 * (abs(c) + 1):
             bad('average', "average of a constant %r is %r" % (c, msh.average(np.full(n, c))))
+        for nm_ in ('L1average', 'L2average'):
+            ok_, v_ = impl.guarded(getattr(msh, nm_), np.full(n, c))
+            if not ok_ or not abs(float(v_) - abs(c)) <= 1e-13 * abs(c):
+                bad(nm_, "%s of the constant %r is %r (expected %r)" % (nm_, c, v_, abs(c)))
         if kind == 'refined':
             nc1 = int((n * md['a']) / (md['a'] + md['b'])); nc2 = n - nc1
             d = np.diff(xf)
